@@ -2,8 +2,10 @@
 
 proof      : coq/Props/C19.v - the byte-position model of encoding.rs equals the WHATWG extraction
              (transcribed on characters) for every scalar string, never panics, never runs out of fuel.
-             NOT proved (needs the tree-builder model): which tokens raise the indicator (C19_when) -
-             covered by the implementation oracle below.
+             C19_label_partial: the body of the in-head meta arm as a function of the tag's attributes
+             (charset value, else http-equiv~content-type + extraction of content).
+             NOT proved (needs the tree-builder model): which tokens reach that arm, element already in
+             the tree, transparent resumption (C19_when) - covered by the implementation oracle below.
 tie        : content strings through `<meta http-equiv=content-type content="...">` parsed by html5ever
              (harness bin `meta`, mode X) vs the extracted Coq model (ocaml/meta_driver.ml, mode X);
              the Coq transcription of WHATWG (mode Y) vs the Python reference used as the oracle.
@@ -404,7 +406,23 @@ def judge_doc(line, out, inserted, ntags):
 
 
 # ------------------------------------------------------------------ the check
+def cache_known(ck):
+    """read known_findings.json once (retrying while another process rewrites it) instead of once per hit"""
+    import time
+    import vcommon
+    ks = []
+    for _ in range(50):
+        try:
+            ks = vcommon.load_known()
+            break
+        except ValueError:
+            time.sleep(0.2)
+    table = {k.get("class"): k for k in ks if k.get("property") == ck.pid and k.get("status") == "known"}
+    ck.match_known = lambda c: table.get(c)
+
+
 def run(ck):
+    cache_known(ck)
     proofs_ok = ck.coq_props(extra_targets=["Extract/ExtractMeta.vo"])
     bindir = ck.cargo_build(["meta"])
     model = ck.ocaml_build("meta_model", "meta_model.ml", "meta_driver.ml")
@@ -467,7 +485,7 @@ def run(ck):
     ctx_hist = {}
     raised = 0
     chunk_dis = 0
-    content_pairs = {}
+    triple_set = set()
     for (cname, ins, ntags, ls) in groups:
         os_ = outs[pos:pos + len(ls)]
         pos += len(ls)
@@ -484,6 +502,12 @@ def run(ck):
                                  {"kind": "failing-input", "context": cname, "inserted": ins, "ntags": ntags,
                                   "lines": [l], "doc": unhx(l.split()[4]), "chunks": l.split()[3], "observed": o[:2000]},
                                  case_class=cls)
+        f0 = os_[0].split("\t") if os_ else []
+        if len(f0) == 5 and f0[1] != "-":
+            for x in f0[1].split(","):
+                el = parse_el(x)
+                if el[0] == "html" and el[1] == "meta":
+                    triple_set.add(el[2:])
         # chunking independence: events (labels only) and tree equal for all chunkings
         def key(o):
             f = o.split("\t")
@@ -514,7 +538,29 @@ def run(ck):
         h[1] += (whole_info or {}).get("events", 0)
         raised += (whole_info or {}).get("events", 0)
 
+    # ---------- the arm body: model (bytes) and Coq label spec (chars) vs the oracle's expected_label on every
+    # attribute triple seen in a tree (the oracle was compared with the implementation's events above)
+    triples = sorted(triple_set, key=repr)
+    al = []
+    for (cs, he, ct) in triples:
+        parts = []
+        for n, v in (("http-equiv", he), ("content", ct), ("charset", cs)):
+            if v is not None:
+                parts += [hx(n), hx(v)]
+        al.append(" ".join(parts))
+    arm_out = ck.run_lines(model, [], ["A " + a for a in al])
+    lab_out = ck.run_lines(model, [], ["B " + a for a in al])
+    arm_dis = 0
+    for tr, a, b in zip(triples, arm_out, lab_out):
+        e = expected_label(("html", "meta") + tr)
+        want = "D" if e is None else "E" + e.encode("utf8").hex()
+        if a != want or b != want:
+            arm_dis += 1
+            if arm_dis <= 3:
+                ck.broken.append("correspondence meta arm: attributes %r oracle %s model %s Coq label spec %s" % (tr, want, a, b))
+
     ck.cov.update({
+        "attribute_triples_through_arm_model": len(triples), "arm_model_disagreements": arm_dis,
         "evaluations": len(strings) + len(lines),
         "distinct_nontrivial": len(nontrivial) + sum(1 for v in ctx_hist.values() if v[1] > 0),
         "rule": "content strings: all strings of <=%d symbols over %r + structured strings (junk, case variants of "
@@ -533,8 +579,9 @@ def run(ck):
                        "Python reference (cross-checked against the extracted Coq transcription) judges the "
                        "implementation.  Which tokens raise the indicator is judged on the implementation only.",
     })
-    ck.notes.append("C19_when (indicator raised exactly by inserted HTML metas, in every insertion mode) is NOT proved: "
-                    "needs the tree-builder model; covered here by the document oracle on the implementation.")
+    ck.notes.append("C19_when (indicator raised exactly by inserted HTML metas, in every insertion mode; element already in "
+                    "the tree; transparent resumption) is NOT proved: needs the tree-builder model; only the arm body is "
+                    "proved (C19_label_partial).  The rest is covered by the document oracle on the implementation.")
     return ck.finish(trusted=TRUSTED, assumptions=ASSUME)
 
 
